@@ -675,12 +675,92 @@ def _worker(arg):
     return stats, fails
 
 
+EDGES = [127, 128, 129, -127, -128, -129, 255, 256, 2047, 2048, 2049, -2047, -2048, -2049, 4095, 4096, 32767, 32768, -32768, -32769,
+         65535, 65536, 2**31 - 1, 2**31, -(2**31), -(2**31) - 1, 2**32 - 1]
+
+
+EDGES_QUICK = [127, 128, -128, -129, 2047, 2048, -2048, -2049, 32767, 32768, 2**31 - 1, 2**31]
+
+
+def edge_cases(target, quick=False):
+    """Deterministic sweep: a constant at the edge of an immediate / displacement field as operand of + - & | ^ and as
+    byte offset of a load and a store into a large global (every 8/12/16/32 bit field edge of the instruction sets)."""
+    bits = 64 if target == "x86_64" else 32
+    tys = ["i32", "u32"] + (["i64", "u64"] if bits == 64 else [])
+    if quick:
+        tys = ["i32"] + (["i64", "u64"] if bits == 64 else ["u32"])
+    cases = []
+    for ty in tys:
+        lo, hi = genir.int_range(ty)
+        funcs, calls = [], []
+        k = 0
+        for c in (EDGES_QUICK if quick else EDGES):
+            if not lo <= c <= hi:
+                continue
+            for op in (["+", "&"] if quick else ["+", "-", "&", "|", "^"]):
+                name = "e%d" % k
+                k += 1
+                funcs.append({"name": name, "params": [["a", ty]], "ret": ty, "bufs": {}, "tailrec": False, "layout": [0],
+                              "blocks": [{"name": name + "_b", "ins": [["const", "c", ty, c], ["binop", "r", ty, "a", op, "c"], ["ret", "r"]]}]})
+                for a in ((5, hi) if quick else (1, 5, hi, lo if lo else hi - 7)):
+                    calls.append([name, [a]])
+        for i in range(0, len(funcs), 25):
+            fs = funcs[i : i + 25]
+            names = {f["name"] for f in fs}
+            cases.append({"module": {"ptr_bits": bits, "globals": [], "externals": [], "functions": fs},
+                          "calls": [c for c in calls if c[0] in names], "target": target, "levels": ["2"] if quick else ["0", "2"]})
+    # memory displacements
+    funcs, calls = [], []
+    init = bytes((7 * i + 3) & 0xFF for i in range(4224)).hex()
+    for k, off in enumerate([124, 127, 128, 132, 2044, 2047, 2048, 2052] if quick else [120, 124, 127, 128, 129, 132, 136, 255, 256, 2040, 2044, 2047, 2048, 2052, 4092, 4096, 4100]):
+        for ty in (["i32", "u8"] + (["i64"] if bits == 64 else [])):
+            if off % genir.size_of(ty, bits):
+                continue
+            name = "m%d_%s" % (k, ty)
+            funcs.append({"name": name, "params": [["a", ty]], "ret": ty, "bufs": {}, "tailrec": False, "layout": [0],
+                          "blocks": [{"name": name + "_b", "ins": [["const", "o", "ptr", off], ["binop", "p", "ptr", "gbuf", "+", "o"],
+                                                                   ["load", "v", ty, "p", False], ["binop", "w", ty, "v", "+", "a"],
+                                                                   ["store", "w", "p", False], ["ret", "v"]]}]})
+            calls.append([name, [3]])
+    for i in range(0, len(funcs), 20):
+        fs = funcs[i : i + 20]
+        names = {f["name"] for f in fs}
+        cases.append({"module": {"ptr_bits": bits, "globals": [{"name": "gbuf", "size": 4224, "align": 8, "init": [init]}], "externals": [], "functions": fs},
+                      "calls": [c for c in calls if c[0] in names], "target": target, "levels": ["2"] if quick else ["0", "2"]})
+    return cases
+
+
+def _edge_worker(case):
+    stats = Stats()
+    fails = []
+    try:
+        msg, defined, ran = run_case(case, stats, exclude=False)
+    except Discard as d:
+        stats.discard("edge sweep: " + d.reason[:60])
+        cleanup()
+        return stats, fails
+    stats.case(None, ran > 0, None, classes=["edge_sweep:" + case["target"]])
+    if msg:
+        kid = classify(case, msg)
+        if kid:
+            stats.known[kid] += 1
+        else:
+            fails.append((case, msg))
+    cleanup()
+    return stats, fails
+
+
 def run(ctx):
     reason = x86link.have_toolchain()
     if reason:
         raise HarnessError(reason)
     n = ctx.scale(96, 9600)
     ctx.pmap(_worker, [(subseed(ctx.seed, PID, w), max(1, n // 16)) for w in range(16)])
+    sweep = []
+    for t in ["x86_64"] + (["riscv", "riscv:rvc"] if riscv_available() else []):
+        sweep.extend(edge_cases(t, ctx.quick))
+    ctx.pmap(_edge_worker, sweep)
+    ctx.extra["edge_sweep_modules"] = len(sweep)
     ctx.extra["targets_covered"] = ["x86_64"] + (["riscv", "riscv:rvc"] if riscv_available() else [])
     ctx.extra["excluded_shapes"] = {k: sorted("%s %s %s" % x for x in FINDINGS[k]["forbid"]) + sorted("%s=%r" % x for x in FINDINGS[k].get("profile_kw", {}).items())
                                     for t in BASE_PROFILES for k in active_findings(t)}
